@@ -542,6 +542,10 @@ def _decoder_own():
 
 SPECS["C20"]["parts"] = _c20_parts() + [_mem_e2("C20"), _decoder_own()]
 SPECS["C04"]["parts"].append(_mem_e2("C04"))
+# a name buffer released twice by the decoder makes two live messages share name storage (one request's name in another's answer)
+SPECS["C04"]["parts"].append(_decoder_own())
+# the multiplexed upstream transport: a reply reaches only the exchange that asked (C05's exploration decides this half of C04 too)
+SPECS["C04"]["parts"].append([dict(p, budget={"quick": 60, "thorough": 300}) for p in SPECS["C05"]["parts"] if p["name"] == "pipeline"][0])
 SPECS["C04"]["parts"].append(dict(name="upstream-replies", pkg="internal/upstream/transport", run="TestVerifC01Upstream", go="go1.26", env=E3ENV, gomaxprocs=1, engines=E3ENGINES,
                                   files=dict(TRANSPORT_COMMON, **{"harness/transport/zz_verif_c14_test.go": "internal/upstream/transport/zz_verif_c14_test.go",
                                                                   "harness/transport/zz_verif_c01up_test.go": "internal/upstream/transport/zz_verif_c01up_test.go"}),
